@@ -29,6 +29,8 @@ def load_kernels():
     code, lowered, types, directives = compile_lowered(src, path)
     ns = {"__name__": "catii.set_operations", "__c_coerce": K.c_coerce, "__sx_len": K.sx_len,
           "__sx_min": K.sx_min, "__sx_max": K.sx_max, "__sx_range": K.sx_range}
+    from symex.lower_pyx import cimported_namespace
+    ns.update(cimported_namespace())
     exec(code, ns)
     ns["numpy"] = K.KNumpy
     K.State.directives = directives
